@@ -29,6 +29,11 @@ def may_return_kinds(prog, fn, seen=None):
                 rv = s["rv"]
                 if "agg" in rv and isinstance(rv["agg"], dict) and rv["agg"].get("adt") == TOKENKIND:
                     out.add(rv["agg"]["variant"])
+                elif isinstance(rv, dict) and "use" in rv and op_local(rv["use"]) is not None or \
+                        (isinstance(rv, dict) and isinstance(rv.get("use"), dict) and (rv["use"].get("copy") or rv["use"].get("move") or {}).get("p")):
+                    # the result is a value built elsewhere in the function (a table whose helper was inlined):
+                    # every kind the function constructs may be returned
+                    out |= kinds_mentioned(prog, b)
         t = bb["term"]
         if t["k"] == "call" and t["dest"]["l"] == 0 and not t["dest"]["p"]:
             c = Body.callee(t)
